@@ -232,6 +232,42 @@ pub fn gen_corpus(rng: &mut Rng, cfg: &CorpusCfg) -> Corpus {
   }
 }
 
+/// Length-skewed variant of a corpus: every ordinary document gets a long body and every
+/// commit ends (ids starting with `~` sort last, i.e. highest doc ordinals) with a few very
+/// short documents made only of the most frequent words and without a title. A pruning bound
+/// that under-estimates what a short document can score (wrong minimum length, average instead
+/// of minimum, last posting left out ...) shows up on these: the heap fills with mediocre long
+/// documents first and the best hits come last.
+pub fn add_length_skew(rng: &mut Rng, corpus: &mut Corpus, vocab: &[String]) {
+  let mut serial = 0usize;
+  for batch in corpus.batches.iter_mut() {
+    for op in batch.iter_mut() {
+      if let Op::Add(doc) = op {
+        if let Some(body) = doc.get("body").and_then(|b| b.as_str()).map(|s| s.to_string()) {
+          let n = body.split_whitespace().count();
+          if n < 10 {
+            let extra = words(rng, vocab, 10 - n, 16 - n.min(9));
+            doc["body"] = json!(format!("{body} {extra}"));
+          }
+        }
+      }
+    }
+    let k = rng.urange(1, 3);
+    let template = batch.iter().find_map(|op| if let Op::Add(d) = op { Some(d.clone()) } else { None });
+    for _ in 0..k {
+      let Some(mut d) = template.clone() else { break };
+      serial += 1;
+      d["_id"] = json!(format!("~~s{serial}"));
+      let w1 = vocab[rng.usize(vocab.len().min(4))].clone();
+      d["body"] = if rng.chance(0.5) { json!(w1) } else { json!(format!("{} {}", w1, vocab[rng.usize(vocab.len().min(4))])) };
+      if let Some(o) = d.as_object_mut() {
+        o.remove("title");
+      }
+      batch.push(Op::Add(d));
+    }
+  }
+}
+
 // ---------------------------------------------------------------------------------------------
 // model of the built index
 // ---------------------------------------------------------------------------------------------
